@@ -49,9 +49,9 @@ def judge(v, c, rec, variant, pid):
             elif rec.get("delivered_raw") != want:
                 bad |= v.violation(feats, "delivered_differs", dict(rec, intended=want))
         # a required variable cannot be omitted: no default in the signature
-        if c["pos"] == "var" and c["w"] in ("T!", "[T]!", "[T!]!") and rec.get("signature", {}).get("a", False):
+        if c["pos"] in ("var", "sub_var") and c["w"] in ("T!", "[T]!", "[T!]!") and rec.get("signature", {}).get("a", False):
             bad |= v.violation(feats, "required_argument_has_default", rec)
-        if c["pos"] == "var" and c["w"] not in ("T!", "[T]!", "[T!]!") and not rec.get("signature", {}).get("a", True):
+        if c["pos"] in ("var", "sub_var") and c["w"] not in ("T!", "[T]!", "[T!]!") and not rec.get("signature", {}).get("a", True):
             bad |= v.violation(feats, "optional_argument_without_default", rec)
     return bad
 
@@ -111,7 +111,9 @@ def run(tier, work, replay=None):
     v.add_tlc(res2, "Variables, as built (deviation toplevel_serialize_whole)")
     traces, owners = [], []
     n = 0
+    all_cases = cases
     for variant, opts in (VARIANTS if tier != "quick" else VARIANTS[:2] + VARIANTS[2:]):
+        cases = [c for c in all_cases if opts.get("async_client") or not c["pos"].startswith("sub")]   # subscriptions: async client only
         job, r, sdl = vc.generate_project(work, cases, opts, variant)
         if r["exc_class"]:
             v.violation({"variant": variant, "stage": "generate"}, f"gen_crash:{r['exc_class']}", r["exc_msg"])
@@ -124,6 +126,7 @@ def run(tier, work, replay=None):
                 traces.append([dict(c, e="case"), {"e": "observed", "present": bool(rec["present"]), "wire": rec["wire"],
                                                    "serlog": rec["serlog"], "delivered": rec["delivered"]}])
                 owners.append((c, variant, rec))
+    cases = all_cases
     n += names_leg(v, work)
     rs, rejected, inv = validate_traces_parallel("Variables_Trace", "Variables_Trace.cfg", traces, work.sub("tv"), chunk_size=600)
     for r in rs:
